@@ -4,6 +4,7 @@ import (
 	"fmt"
 	"go/constant"
 	"go/token"
+	"math/big"
 	"regexp"
 	"strings"
 
@@ -297,6 +298,54 @@ func rulesC14(w *World, r *Report) {
 			{"p0.step", "0", []int{-1, 0}, "a series with a positive step is rejected, so what AppendTo wrote does not decode"},
 		})
 	}
+	// a count is refused only when its message cannot be encoded at all: the constant C of the rejecting test `C < count`
+	// is the largest count whose message (prefix + elem*count, the decoder's own length guard) still fits MaxInt32, so
+	// (C+1)*elem + prefix > MaxInt32 — a smaller "sane" cap turns valid long lists into hard errors
+	for _, typ := range []string{"Header", "TimeSeries", "Points"} {
+		d := ce.decoder(typ)
+		if d.fn == nil {
+			continue
+		}
+		fcs := failConditions(w, d.fn)
+		eachInstr(d.fn, func(in ssa.Instruction) {
+			ms, ok := in.(*ssa.MakeSlice)
+			if !ok {
+				return
+			}
+			if _, isC := constInt(ms.Len); isC {
+				return
+			}
+			lexpr := newExprCtx(w).expr(stripConvert(ms.Len))
+			var guard *codecGuard
+			for i := range d.guards {
+				g := d.guards[i]
+				if g.total.k >= 1 && g.total.sym == lexpr && edgeDominates(g.from, g.pass, ms.Block()) {
+					guard = &d.guards[i]
+				}
+			}
+			if guard == nil {
+				return // C15.R1 reports the missing guard
+			}
+			var bound *big.Int
+			for _, fc := range fcs {
+				if fc.Op != "<" || len(fc.Guards) > 0 || !fc.At.Block().Dominates(ms.Block()) || fc.R != lexpr {
+					continue
+				}
+				if c, ok := stripConvert(fc.X).(*ssa.Const); ok && c.Value != nil {
+					if bi, ok2 := new(big.Int).SetString(c.Value.ExactString(), 10); ok2 {
+						bound = bi
+					}
+				}
+			}
+			if bound == nil {
+				return // C15.R1 reports the missing bound
+			}
+			next := new(big.Int).Add(bound, big.NewInt(1))
+			next.Mul(next, big.NewInt(guard.total.k))
+			next.Add(next, big.NewInt(guard.total.c))
+			r.Check(next.Cmp(bigMaxInt32()) > 0, "C14.R6", typ+".TakeFrom:refuses-only-what-cannot-fit", w.instrPos(ms), fmt.Sprintf("count bound %s is the largest whose message fits (%s)", bound, guard.total), fmt.Sprintf("%s.TakeFrom refuses counts above %s although a message of %s+1 elements (%s) still fits: a valid long list gets a hard error instead of being decoded or asked to continue", typ, bound, bound, guard.total))
+		})
+	}
 	// the fixed-size decoders have nothing to validate: whatever AppendTo wrote decodes
 	for _, tn := range []string{"ArchiveInfo", "Point", "Value", "Timestamp", "Duration"} {
 		tf := fn(w.Lib, tn+".TakeFrom")
@@ -429,6 +478,34 @@ func rulesC14(w *World, r *Report) {
 			if inLoopWith(c.Block()) {
 				inLoop = true
 			}
+		}
+		// the header the handle keeps is the object that was decoded, field for field as stored (not one rebuilt from
+		// some of its fields: the stored max retention is not derivable from the archive list of a foreign file)
+		{
+			bad := ""
+			n := 0
+			eachInstr(rh, func(in ssa.Instruction) {
+				st, ok := in.(*ssa.Store)
+				if !ok {
+					return
+				}
+				if _, fld, isFld := fieldAddrOf(st.Addr); !isFld || fld != "header" {
+					return
+				}
+				n++
+				okV := false
+				if u, isU := st.Val.(*ssa.UnOp); isU && u.Op == token.MUL {
+					for _, c := range calls {
+						if len(c.Common().Args) > 0 && c.Common().Args[0] == u.X {
+							okV = true
+						}
+					}
+				}
+				if !okV {
+					bad = "the header stored at " + w.instrPos(st) + " is " + shortExpr(newExprCtx(w).expr(st.Val)) + ", not the object Header.TakeFrom decoded"
+				}
+			})
+			r.Check(bad == "" && n > 0, "C14.R5", "readHeader:stores-decoded-header", w.pos(rh.Pos()), "the handle keeps the decoded header object", "readHeader: "+bad+": what view prints and the server streams as the file's metadata is then recomputed, not what the file stores")
 		}
 		okRetry := len(calls) == 2 && !inLoop && dominatesInstr(calls[0], calls[1])
 		if okRetry {
